@@ -284,11 +284,16 @@ def judge_call(ent, T, eidx, iidx, seed, refget, rec, label, debug):
         refs = [strip_inferred(r) for r in refs]
     if out not in refs:
         key = 'history/outcome-depends-on-history'
-        if debug and out[0] == 'ret' and any(r[0] == 'ret' and strip_log(out) == strip_log(r) for r in refs):
-            m = RESPONSE.search(str(out[1].get('msg', '')) + str(out[1].get('overall_message', '')))
-            stale = (m is not None and isinstance(inp, str) and m.group(1) != 'Student Response:<br/>\n' + inp) or \
-                any(strip_inferred(out) == strip_inferred(r) for r in refs)
-            key = 'history/stale-debuglog' if stale else 'history/debuglog-differs'
+        same = [r for r in refs if r[0] == 'ret' and out[0] == 'ret' and strip_log(out) == strip_log(r)]
+        if debug and same:
+            # only the debug log differs: does it show another call's response / inference (stale), or lack a line?
+            text = lambda o: str(o[1].get('msg', '')) + str(o[1].get('overall_message', ''))
+            m = RESPONSE.search(text(out))
+            n_out, n_ref = len(INFERRED.findall(text(out))), len(INFERRED.findall(text(same[0])))
+            if (m is not None and isinstance(inp, str) and m.group(1) != 'Student Response:<br/>\n' + inp) or n_out > n_ref:
+                key = 'history/stale-debuglog'
+            else:
+                key = 'debug/inferred-line-missing' if n_out < n_ref else 'history/debuglog-differs'
         elif ent.failed_infer and out[0] == 'exc':
             key = 'history/failed-inference-wedges'
         elif T.get('nested_debug') and any(r[0] == 'exc' and (r[1] == 'AttributeError' and 'debuglog' in r[2] or
